@@ -63,7 +63,9 @@ func registerNatives(e *Engine) {
 		return &Str{K: strSeq, Snap: b.BO.snapshot(), Off: ex.c64(0), Len: n}
 	})
 	vp("Atom", func(ex *Exec, site ssa.Instruction, args []Value) Value {
-		return &Str{K: strAtom, Atom: ex.inputScalar(ex.argName(args[0]), smt.BV(64))}
+		t := ex.inputScalar(ex.argName(args[0]), smt.BV(64))
+		ex.inputs[len(ex.inputs)-1].Kind = "atom"
+		return &Str{K: strAtom, Atom: t}
 	})
 	vp("Choose", func(ex *Exec, site ssa.Instruction, args []Value) Value {
 		k := ex.term(args[1])
